@@ -5,52 +5,18 @@
     the coefficients of the source on the whole saturation line. *)
 From Coq Require Import ZArith QArith Qreals Reals List Bool Lra.
 From Gen Require Import GenIAPWS GenTraced.
-From P Require Import Expr RunR.
+From P Require Import Expr RunR Formulas.
 Import ListNotations.
 Close Scope Q_scope.
 Open Scope R_scope.
 
-Lemma Q2R_c0 : Q2R (0 # 1) = 0. Proof. unfold Q2R; cbn; lra. Qed.
-Lemma Q2R_c2 : Q2R (2 # 1) = 2. Proof. unfold Q2R; cbn; lra. Qed.
-Lemma Q2R_c4 : Q2R (4 # 1) = 4. Proof. unfold Q2R; cbn; lra. Qed.
-
-Definition p_611_213_Q : Q := (2688143202191409 # 4398046511104)%Q.   (* the double 611.213 *)
-(** the upper limit of tsat's range test, read off the traced DAG (third node: the constant the
-    argument is compared with): pcritical in the source as it stands *)
-Definition tsat_upper_Q : Q := match nth 2 tsat_nodes (NVar 0) with NConst q _ => q | _ => 0%Q end.
-
-Section Formulas.
+Section Traced.
   Variable n : nat -> R.
-
-  (** in the operation order of IAPWS97.sat *)
-  Definition theta_of (tk : R) : R := tk + n 8 / (tk - n 9).
-  Definition qA (th : R) : R := th * th + n 0 * th + n 1.
-  Definition qB (th : R) : R := n 2 * (th * th) + n 3 * th + n 4.
-  Definition qC (th : R) : R := n 5 * (th * th) + n 6 * th + n 7.
-  Definition disc1 (th : R) : R := qB th * qB th - 4 * qA th * qC th.
-  Definition den1 (th : R) : R := - qB th + sqrt (disc1 th).
-  Definition beta_of (th : R) : R := 2 * qC th / den1 th.
-  Definition sat_val (tk : R) : R :=
-    let x := beta_of (theta_of tk) in Q2R pstar4_Q * (x * x) * (x * x).
-
-  (** in the operation order of IAPWS97.tsat *)
-  Definition qE (b2 b : R) : R := b2 + n 2 * b + n 5.
-  Definition qF (b2 b : R) : R := n 0 * b2 + n 3 * b + n 6.
-  Definition qG (b2 b : R) : R := n 1 * b2 + n 4 * b + n 7.
-  Definition disc2 (b2 b : R) : R := qF b2 b * qF b2 b - 4 * qE b2 b * qG b2 b.
-  Definition den2 (b2 b : R) : R := - qF b2 b - sqrt (disc2 b2 b).
-  Definition dd_of (b2 b : R) : R := 2 * qG b2 b / den2 b2 b.
-  Definition disc3 (d : R) : R := (n 9 + d) * (n 9 + d) - 4 * (n 8 + n 9 * d).
-  Definition tk_of (d : R) : R := Q2R (1 # 2) * (n 9 + d - sqrt (disc3 d)).
-  Definition tsat_val (p : R) : R :=
-    let b2 := sqrt (p / Q2R pstar4_Q) in
-    let b := sqrt b2 in
-    tk_of (dd_of b2 b) - Q2R tc_k_Q.
 
   (** ** the traced DAGs compute exactly these formulas, and branch exactly on the range tests *)
   Lemma sat_traced_is (t : R) (r : rres) :
     runsR sat_traced [t] n r <->
-    (0 <= t <= Q2R tcritical_Q /\ r = RRet [sat_val (t + Q2R tc_k_Q)]) \/
+    (0 <= t <= Q2R tcritical_Q /\ r = RRet [(sat_val n) (t + Q2R tc_k_Q)]) \/
     (~ (0 <= t <= Q2R tcritical_Q) /\ r = RNone).
   Proof.
     unfold runsR, envR.
@@ -72,7 +38,7 @@ Section Formulas.
 
   Lemma tsat_traced_is (p : R) (r : rres) :
     runsR tsat_traced [p] n r <->
-    (Q2R p_611_213_Q <= p <= Q2R tsat_upper_Q /\ r = RRet [tsat_val p]) \/
+    (Q2R p_611_213_Q <= p <= Q2R tsat_upper_Q /\ r = RRet [(tsat_val n) p]) \/
     (~ (Q2R p_611_213_Q <= p <= Q2R tsat_upper_Q) /\ r = RNone).
   Proof.
     unfold runsR, envR.
@@ -95,7 +61,7 @@ Section Formulas.
   (** ** algebra of the two root selections *)
 
   (** the quadratic the code solves for beta, and its regrouping as a quadratic in theta *)
-  Lemma regroup th b : qA th * (b * b) + qB th * b + qC th = qE (b * b) b * (th * th) + qF (b * b) b * th + qG (b * b) b.
+  Lemma regroup th b : (qA n) th * (b * b) + (qB n) th * b + (qC n) th = (qE n) (b * b) b * (th * th) + (qF n) (b * b) b * th + (qG n) (b * b) b.
   Proof. unfold qA, qB, qC, qE, qF, qG. ring. Qed.
 
   (** 2c / (-b + sqrt(b^2 - 4ac)) is a root of a x^2 + b x + c *)
@@ -140,22 +106,22 @@ Section Formulas.
   Qed.
 
   (** theta(tk) inverted by the last square root of tsat *)
-  Lemma tk_of_theta tk : tk - n 9 <> 0 -> 0 <= n 9 + theta_of tk - 2 * tk -> tk_of (theta_of tk) = tk.
+  Lemma tk_of_theta tk : tk - n 9 <> 0 -> 0 <= n 9 + (theta_of n) tk - 2 * tk -> (tk_of n) ((theta_of n) tk) = tk.
   Proof.
     intros Hn Hs. unfold tk_of, disc3.
-    assert (Hd : (n 9 + theta_of tk) * (n 9 + theta_of tk) - 4 * (n 8 + n 9 * theta_of tk)
-                 = (n 9 + theta_of tk - 2 * tk) * (n 9 + theta_of tk - 2 * tk)).
+    assert (Hd : (n 9 + (theta_of n) tk) * (n 9 + (theta_of n) tk) - 4 * (n 8 + n 9 * (theta_of n) tk)
+                 = (n 9 + (theta_of n) tk - 2 * tk) * (n 9 + (theta_of n) tk - 2 * tk)).
     { unfold theta_of. field. exact Hn. }
     rewrite Hd, sqrt_square by exact Hs.
     replace (Q2R (1 # 2)) with (/ 2) by (unfold Q2R; cbn; lra). field.
   Qed.
-  Lemma theta_of_tk d : 0 <= disc3 d -> tk_of d - n 9 <> 0 -> theta_of (tk_of d) = d.
+  Lemma theta_of_tk d : 0 <= (disc3 n) d -> (tk_of n) d - n 9 <> 0 -> (theta_of n) ((tk_of n) d) = d.
   Proof.
     intros Hd Hn. unfold theta_of.
-    set (tk := tk_of d) in *.
+    set (tk := (tk_of n) d) in *.
     assert (Hq : tk * tk - (n 9 + d) * tk + (n 8 + n 9 * d) = 0).
-    { unfold tk, tk_of. set (s := sqrt (disc3 d)).
-      assert (Hs : s * s = disc3 d) by (apply sqrt_sqrt; exact Hd).
+    { unfold tk, tk_of. set (s := sqrt ((disc3 n) d)).
+      assert (Hs : s * s = (disc3 n) d) by (apply sqrt_sqrt; exact Hd).
       replace (Q2R (1 # 2)) with (/ 2) by (unfold Q2R; cbn; lra).
       unfold disc3 in Hs. nra. }
     apply (Rmult_eq_reg_r (tk - n 9)); [|exact Hn].
@@ -165,15 +131,15 @@ Section Formulas.
 
   (** ** tsat (sat t) = t *)
   Theorem tsat_of_sat_algebra (tk : R) :
-    let th := theta_of tk in
-    let b := beta_of th in
+    let th := (theta_of n) tk in
+    let b := (beta_of n) th in
     tk - n 9 <> 0 ->                                    (* the divisor in theta *)
-    0 <= disc1 th -> den1 th <> 0 ->                    (* sat's square root and divisor *)
+    0 <= (disc1 n) th -> (den1 n) th <> 0 ->                    (* sat's square root and divisor *)
     0 <= b ->                                           (* beta is the non-negative fourth root *)
-    0 <= 2 * qE (b * b) b * th + qF (b * b) b ->        (* theta is the root tsat selects *)
-    qE (b * b) b * th + qF (b * b) b <> 0 ->            (*   (tsat's divisor, in disguise) *)
+    0 <= 2 * (qE n) (b * b) b * th + (qF n) (b * b) b ->        (* theta is the root tsat selects *)
+    (qE n) (b * b) b * th + (qF n) (b * b) b <> 0 ->            (*   (tsat's divisor, in disguise) *)
     0 <= n 9 + th - 2 * tk ->                           (* tk is the root of theta(tk) tsat selects *)
-    tsat_val (sat_val tk) = tk - Q2R tc_k_Q.
+    (tsat_val n) ((sat_val n) tk) = tk - Q2R tc_k_Q.
   Proof.
     intros th b H9 Hd1 Hn1 Hb Hs2 Hn2 Hs3.
     assert (Hp : Q2R pstar4_Q <> 0) by (unfold Q2R, pstar4_Q; cbn; lra).
@@ -181,10 +147,10 @@ Section Formulas.
     replace (Q2R pstar4_Q * (b * b) * (b * b) / Q2R pstar4_Q) with ((b * b) * (b * b)) by (field; exact Hp).
     rewrite (sqrt_square (b * b)) by nra. rewrite (sqrt_square b) by exact Hb.
     cbv zeta.
-    assert (Hroot : qA th * (b * b) + qB th * b + qC th = 0).
+    assert (Hroot : (qA n) th * (b * b) + (qB n) th * b + (qC n) th = 0).
     { unfold b, beta_of, den1, disc1. apply root_plus; [exact Hd1|exact Hn1]. }
     rewrite regroup in Hroot.
-    assert (Hdd : dd_of (b * b) b = th).
+    assert (Hdd : (dd_of n) (b * b) b = th).
     { unfold dd_of, den2, disc2. apply select_minus; [exact Hroot|lra|exact Hn2]. }
     rewrite Hdd. unfold th. rewrite tk_of_theta by assumption. reflexivity.
   Qed.
@@ -193,14 +159,14 @@ Section Formulas.
   Theorem sat_of_tsat_algebra (p : R) :
     let b2 := sqrt (p / Q2R pstar4_Q) in
     let b := sqrt b2 in
-    let d := dd_of b2 b in
-    let tk := tk_of d in
+    let d := (dd_of n) b2 b in
+    let tk := (tk_of n) d in
     0 <= p ->
-    0 <= disc2 b2 b -> den2 b2 b <> 0 ->                (* tsat's first square root and divisor *)
-    0 <= disc3 d -> tk - n 9 <> 0 ->                    (* tsat's second square root; sat's divisor in theta *)
-    2 * qA d * b + qB d <= 0 ->                         (* beta is the root sat selects *)
-    qA d * b + qB d <> 0 ->                             (*   (sat's divisor, in disguise) *)
-    sat_val (tsat_val p + Q2R tc_k_Q) = p.
+    0 <= (disc2 n) b2 b -> (den2 n) b2 b <> 0 ->                (* tsat's first square root and divisor *)
+    0 <= (disc3 n) d -> tk - n 9 <> 0 ->                    (* tsat's second square root; sat's divisor in theta *)
+    2 * (qA n) d * b + (qB n) d <= 0 ->                         (* beta is the root sat selects *)
+    (qA n) d * b + (qB n) d <> 0 ->                             (*   (sat's divisor, in disguise) *)
+    (sat_val n) ((tsat_val n) p + Q2R tc_k_Q) = p.
   Proof.
     intros b2 b d tk Hp0 Hd2 Hn2 Hd3 H9 Hs1 Hn1.
     assert (Hp : Q2R pstar4_Q <> 0) by (unfold Q2R, pstar4_Q; cbn; lra).
@@ -210,15 +176,15 @@ Section Formulas.
     assert (Hb22 : b2 * b2 = p / Q2R pstar4_Q) by (apply sqrt_sqrt; exact Hq).
     unfold sat_val, tsat_val. fold b2. fold b. fold d. fold tk.
     replace (tk - Q2R tc_k_Q + Q2R tc_k_Q) with tk by ring.
-    assert (Hth : theta_of tk = d) by (apply theta_of_tk; assumption).
+    assert (Hth : (theta_of n) tk = d) by (apply theta_of_tk; assumption).
     rewrite Hth.
-    assert (Hroot : qE b2 b * (d * d) + qF b2 b * d + qG b2 b = 0).
+    assert (Hroot : (qE n) b2 b * (d * d) + (qF n) b2 b * d + (qG n) b2 b = 0).
     { unfold d, dd_of, den2, disc2. apply root_minus; [exact Hd2|exact Hn2]. }
     rewrite <- Hb2 in Hroot. rewrite <- regroup in Hroot.
-    assert (Hbeta : beta_of d = b).
+    assert (Hbeta : (beta_of n) d = b).
     { unfold beta_of, den1, disc1. apply select_plus; [exact Hroot|lra|exact Hn1]. }
     rewrite Hbeta. cbv zeta. rewrite Hb2.
     replace (Q2R pstar4_Q * b2 * b2) with (Q2R pstar4_Q * (b2 * b2)) by ring.
     rewrite Hb22. field. exact Hp.
   Qed.
-End Formulas.
+End Traced.
